@@ -2,6 +2,7 @@
 """Regenerates the `fixed` list of known_findings.json from /repo's "fix:" commits."""
 import json, subprocess
 PROP = {
+"generic NamedTuple and TypedDict classes ignored":"C01",
 "object_fields(deserialization=True / serialization=True) dropped":"C10",
 "a str value of Union[Sequence":"C13",
 "unions dispatched by JSON type refused subclasses":"C13",
